@@ -16,13 +16,14 @@ RULE = ("(A) MC_Core(stream + mutator families): 0<=pos<=len after every step, r
 def run(chk):
     thorough = chk.tier == 'thorough'
     L = 4 if thorough else 3
+    join_ref = common.run_ref_machine(chk, mc=True, procs=16 if thorough else 6, num=60 if thorough else 4, thorough=thorough)
     common.run_families(chk, [('stream', L, 2, L)], STREAMS)
     mut = [('grow', 3, 2, 3), ('del', 2, 2, 2), ('setitem', 2, 2, 2), ('replace', 2, 1, 1), ('range', 2, 2, None)]
     if thorough:
         mut = [('grow', 3, 2, 3), ('del', 3, 2, 3), ('setitem', 3, 2, 3), ('setslice', 2, 2, 2), ('replace', 2, 2, 2),
                ('range', 2, 2, 2), ('set', 2, 2, 2), ('bitwise', 3, 2, 3)]
     common.run_families(chk, mut, ['BitStream'], all_pos=True)
-    common.run_ref_machine(chk, mc=True, procs=16 if thorough else 8, num=60 if thorough else 5, thorough=thorough)
+    join_ref()
     chk.exhaustive = True
     common.run_random(chk, drivers.c06_program, 8000 if thorough else 1500, 6, huge=0.01 if thorough else 0.0)
     from harness import fmtprogs
